@@ -198,6 +198,7 @@ def run(run):
 
 
 run_flow = run
+FIXTURE_EXPECT = ["unsafe-block/", "static-mut/", "thread-local/", "static-interior-mutability/", "ambient-api/", "hash-order-escapes/"]
 
 
 def neutralised(prog, p, bid, t):
